@@ -23,6 +23,9 @@ CLAIMS = {
  "C06": dict(level="fault_enumeration", technique="crash-point enumeration over the recorded storage write log of generated histories (every prefix / all prefixes inside multi-write operations), each image opened by the real code and compared with the reference model; restart walk differential",
    text="A generated history is run once recording the ordered write log of both databases; every prefix (quick: all prefixes strictly inside multi-write operations, others sampled; thorough: all) is a crash image on which ledger and state are opened by the real code and checked with the C04 / C01 / C02 oracles, and Walk(ledger tip) must reach the uninterrupted run's state.",
    note="Trusts LevelDB batch atomicity and that a crash loses a suffix of the write sequence; write granularity is the kvdb interface (puts, deletes, batches)."),
+ "C09": dict(level="exploration", technique=T_MODEL + "; round-trip through the real Chain.PreExec -> client assembly -> Chain.SubmitTx; re-signed single mutations of the assembled transaction must be refused",
+   text="Generated contract programs over all prior states are sent through the real pipeline (Chain.PreExec on live state, assembly exactly as a client does, SubmitTx); before the original is submitted every re-signed mutant whose rejection the statement demands (stale read, changed / added / dropped write, changed program, lowered limit, fee below gas, redirected or lowered contract transfer, changed call amount) must be refused without trace; committing the original changes exactly its write set and outputs (model comparison after every step); a failing program changes nothing.",
+   note="As C01; contract-originated transfers only when the contract owns exactly one output (deterministic replay); adding an unused read or permuting the write set is not required to be rejected."),
  "C10": dict(level="exploration", technique="property-based testing (rapid) of operation sequences against an overlay-map model + round-trip through the verifier's replay (XMReaderFromRWSet)",
    text="Generated Get/Put/Del/Select/Transfer sequences on the real sandbox over generated backing states; every result is compared with an overlay-map model, the flushed read/write set with the statement's three rules, and the same calls are replayed over the read set alone (the verifier's situation) demanding identical results and write set.",
    note="The backing reader imitates xmodel.XModel (verified against the real one by a probe); nil end keys only where XModel and MemXModel agree; no writes while an iterator is open."),
